@@ -58,18 +58,33 @@ pub struct TextMutant {
     pub desc: String,
 }
 
-/// token-level single edits: for token i: delete, duplicate, swap with the next token, replace by
-/// each alphabet entry. count = n * (3 + |alphabet|)
+/// token-level single edits: for token i: delete, duplicate, swap with the next token, drop its
+/// first character, drop its last character, append a letter, replace by each alphabet entry.
+/// count = n * (6 + |alphabet|)
+pub const TOKEN_EDIT_KINDS: usize = 6;
 pub fn token_edit_count(tokens: &[String]) -> usize {
-    tokens.len() * (3 + INK_ALPHABET.len())
+    tokens.len() * (TOKEN_EDIT_KINDS + INK_ALPHABET.len())
 }
 
 pub fn token_edit_nth(tokens: &[String], idx: usize) -> TextMutant {
-    let per = 3 + INK_ALPHABET.len();
+    let per = TOKEN_EDIT_KINDS + INK_ALPHABET.len();
     let (i, k) = (idx / per, idx % per);
     let mut t: Vec<String> = tokens.to_vec();
     let desc;
     match k {
+        3 => {
+            desc = format!("drop first char of token {i} {:?}", t[i]);
+            t[i] = t[i].chars().skip(1).collect();
+        }
+        4 => {
+            desc = format!("drop last char of token {i} {:?}", t[i]);
+            let n = t[i].chars().count();
+            t[i] = t[i].chars().take(n.saturating_sub(1)).collect();
+        }
+        5 => {
+            desc = format!("append 'x' to token {i} {:?}", t[i]);
+            t[i].push('x');
+        }
         0 => {
             desc = format!("delete token {i} {:?}", t[i]);
             t.remove(i);
@@ -86,7 +101,7 @@ pub fn token_edit_nth(tokens: &[String], idx: usize) -> TextMutant {
             }
         }
         _ => {
-            let a = INK_ALPHABET[k - 3];
+            let a = INK_ALPHABET[k - TOKEN_EDIT_KINDS];
             desc = format!("replace token {i} {:?} by {:?}", t[i], a);
             t[i] = a.to_string();
         }
